@@ -254,7 +254,11 @@ pub fn apply_damage(w: &World, path: &str, kind: &DamageKind, arg: u64) -> bool 
                 let idx = (arg % list.len() as u64) as usize;
                 let e = &mut list[idx];
                 let has_addrs = e.get("addrs").and_then(|a| a.as_array()).map(|a| !a.is_empty()).unwrap_or(false);
-                match (arg >> 16) % 10 {
+                match (arg >> 16) % 14 {
+                    10 => e["apath"] = serde_json::json!("//"),
+                    11 => e["apath"] = serde_json::json!("/../escaped-by-index"),
+                    12 => e["apath"] = serde_json::json!("no-leading-slash"),
+                    13 => e["apath"] = serde_json::json!(""),
                     0 => e["mtime_nanos"] = serde_json::json!(1_000_000_000u64),
                     1 => e["mtime_nanos"] = serde_json::json!(4_294_967_295u64),
                     2 => e["mtime"] = serde_json::json!(i64::MAX),
